@@ -15,7 +15,7 @@ use crate::value::Value;
 use serde::{Deserialize, Serialize};
 use std::cell::RefCell;
 use veryl_parser::Stringifier;
-use veryl_parser::resource_table::{self, StrId, TokenId};
+use veryl_parser::resource_table::{self, PathId, StrId, TokenId};
 use veryl_parser::token_range::TokenRange;
 use veryl_parser::veryl_grammar_trait::{self as syntax_tree, Expression};
 use veryl_parser::veryl_token::Token;
@@ -49,6 +49,11 @@ pub fn pending_len() -> usize {
 /// Exports the pending entries added since the given watermark.
 pub fn export_pending_since(watermark: usize) -> Vec<PendingEntry> {
     PENDING.with(|f| f.borrow()[watermark..].to_vec())
+}
+
+/// Discards the pending entries queued by a file that is being dropped.
+pub fn drop(path: PathId) {
+    PENDING.with(|f| f.borrow_mut().retain(|x| x.call_token.source != path));
 }
 
 pub fn drain_pending() -> Vec<PendingEntry> {
